@@ -115,6 +115,19 @@ def check(ctx, run):
         hedge = [Obj(W.PRIMARY, n_) for n_ in hnames]
         hh = W.hedger(prog, [W.feature("Moneyness", log=False)])
         d = W.option()
+        # two registered clauses (a concrete list: a fold over them has a value however it is written); what payoff() returns for this
+        # derivative is the reference the payoff handed to pl() is compared with (that payoff() folds the clauses in order is C12.R3)
+        d.attrs["__clauses__"] = [Sym("deriv.clauseA", ("callable",)), Sym("deriv.clauseB", ("callable",))]
+        pay_fi = prog.lookup_method(d.cls, "payoff")
+        if pay_fi is None:
+            raise AnalysisError("anchor vanished: derivative.payoff")
+        try:
+            pv_ = [r_ for r_ in interp.explore(pay_fi, [], {}, self_obj=d) if not r_["raises"]]
+        except Unsupported as ex:
+            raise AnalysisError(f"derivative.payoff: {ex}")
+        if len(pv_) != 1:
+            raise AnalysisError("derivative.payoff: expected one path")
+        payoff_value = pv_[0]["value"]
         res = [r for r in interp.explore(m, [d], {"hedge": hedge}, self_obj=hh) if not r["raises"]]
         if not res:
             raise AnalysisError(f"Hedger.{meth}: no analysable path")
@@ -145,7 +158,7 @@ def check(ctx, run):
                     problems.append(f"unit is {str(unit)[:60]}")
                 pay = kw.get("payoff")
                 if want_payoff:
-                    if not (pay is not None and any(isinstance(s, Op) and s.op == "abstract" and "payoff_fn" in str(s.args[0]) for s in walk(pay)) and any(isinstance(s, Op) and s.op == "loop" for s in walk(pay))):
+                    if not (pay is not None and any(isinstance(s, Op) and s.op == "abstract" and "payoff_fn" in str(s.args[0]) for s in walk(pay)) and pay == payoff_value):
                         problems.append(f"payoff is {str(pay)[:80]}, expected derivative.payoff() (payoff_fn folded through the clauses)")
                 elif pay is not None:
                     problems.append("compute_portfolio passes a payoff")
